@@ -144,6 +144,64 @@ fn check_writer_cli_newline_bytes(which: usize, scratch: &Scratch) -> Vec<Viol> 
     }
 }
 
+/// Arrays beyond 4 096 values / 64 KiB of data and axes of 65 536 and more entries: written files
+/// must stay conforming, numpy-layout files of several dtypes must be read exactly.
+fn check_large_arrays() -> (u64, Vec<Viol>) {
+    let np = Spelling::numpy();
+    let mut viols = Vec::new();
+    let mut n = 0u64;
+    // writer
+    for shape in [vec![4097usize], vec![65, 65], vec![21, 21, 21], vec![8193], vec![65536], vec![100_001], vec![2, 65_537], vec![300, 301]] {
+        n += 1;
+        let cells: usize = shape.iter().product();
+        let values: Vec<f64> = (0..cells).map(|i| if i % 97 == 5 { 3.25 } else { i as f64 * 0.5 - 7.0 }).collect();
+        let r = catch(|| {
+            let arr = Array::new(values.clone(), shape.clone()).expect("shape fits");
+            let mut out = Vec::new();
+            arr.write_npy(&mut out).map(|_| out).map_err(|e| e.to_string())
+        });
+        let verdict = match r {
+            Ok(Ok(bytes)) => check_written(&bytes, &shape, &values).map_err(|e| format!("{e} ({} bytes written)", bytes.len())),
+            Ok(Err(e)) => Err(e),
+            Err(p) => Err(format!("panic: {p}")),
+        };
+        if let Err(e) = verdict {
+            viols.push((format!("C15|lib|writer-nonconforming|large|{}", norm_msg(&e)), format!("write_npy of shape {shape:?} ({cells} values): {e}"), J::obj([("kind", J::s("c15-large-writer")), ("shape", J::usizes(&shape))])));
+        }
+    }
+    // reader: value i of the file is i (mod the type's range), so a repeated, dropped or swapped block shows
+    for (descr, size) in [("<f8", 8usize), (">f8", 8), (">i4", 4), ("<u2", 2), ("|u1", 1), ("<f4", 4)] {
+        for shape in [vec![8193usize], vec![20_000], vec![65_536], vec![70_001], vec![3, 65_537], vec![101, 101]] {
+            n += 1;
+            let cells: usize = shape.iter().product();
+            let mut data: Vec<u8> = Vec::with_capacity(cells * size);
+            let mut expect: Vec<f64> = Vec::with_capacity(cells);
+            for i in 0..cells {
+                match descr {
+                    "<f8" => { let v = i as f64 + 0.5; data.extend(v.to_le_bytes()); expect.push(v); }
+                    ">f8" => { let v = i as f64 + 0.5; data.extend(v.to_be_bytes()); expect.push(v); }
+                    ">i4" => { let v = i as i32 - 1000; data.extend(v.to_be_bytes()); expect.push(v as f64); }
+                    "<u2" => { let v = (i % 65_536) as u16; data.extend(v.to_le_bytes()); expect.push(v as f64); }
+                    "|u1" => { let v = (i % 251) as u8; data.push(v); expect.push(v as f64); }
+                    _ => { let v = i as f32 * 0.5; data.extend(v.to_le_bytes()); expect.push(v as f64); }
+                }
+            }
+            let bytes = synth(1 + (cells % 3) as u8, &dict_text(descr, false, &shape, &np), &data);
+            let got = catch(|| Array::read_npy(&bytes[..]).map(|a| (a.shape().to_vec(), a.as_slice().to_vec())).map_err(|e| e.to_string()));
+            let ok = matches!(&got, Ok(Ok((s, v))) if *s == shape && v.len() == expect.len() && v.iter().zip(&expect).all(|(a, b)| a.to_bits() == b.to_bits()));
+            if !ok {
+                let first_bad = if let Ok(Ok((_, v))) = &got { v.iter().zip(&expect).position(|(a, b)| a.to_bits() != b.to_bits()) } else { None };
+                viols.push((
+                    format!("C15|lib|read-large-wrong|{descr}"),
+                    format!("numpy-layout {descr} file of shape {shape:?} ({} data bytes): {}; first wrong value at {first_bad:?}", data.len(), match &got { Ok(Ok((s, v))) => format!("shape {s:?}, {} values", v.len()), Ok(Err(e)) => format!("error {e}"), Err(p) => format!("panic {p}") }),
+                    J::obj([("kind", J::s("c15-large-reader")), ("descr", J::s(descr)), ("shape", J::usizes(&shape))]),
+                ));
+            }
+        }
+    }
+    (n, viols)
+}
+
 /// npy inputs whose *last data byte* is an ASCII whitespace byte, through the auto-detecting CLI
 /// reader (binary data must never be trimmed), and `view -O npy -o FILE` onto a longer existing file.
 fn check_cli_whitespace_tail_and_output_file(scratch: &Scratch) -> (u64, Vec<Viol>) {
@@ -652,6 +710,20 @@ pub fn run(tier: Tier) -> i32 {
         exhaustive: true,
         extra: vec![],
     });
+    {
+        let (n, v) = check_large_arrays();
+        for (k, w, j) in v {
+            rep.violation(k, w, j);
+        }
+        rep.part(Part {
+            name: "lib: arrays beyond 4 096 values and axes of 65 536+ entries".into(),
+            evaluations: n,
+            nontrivial: n,
+            note: "write_npy of 8 shapes with 4 097 .. 100 001 values (65x65, 21^3, 2x65 537, ...) through the strict parser; numpy-layout files in 6 dtypes x 6 shapes with 8 193 .. 196 611 values (v1/v2/v3) read back exactly".into(),
+            exhaustive: true,
+            extra: vec![],
+        });
+    }
     {
         let (n, v) = check_cli_whitespace_tail_and_output_file(&scratch);
         for (k, w, j) in v {
